@@ -60,66 +60,88 @@ func (w *World) rulesRating(out *[]Obligation) {
 		}
 		score := params[0]
 		// every use of the parameter is an operand of a comparison with a constant
+		// (or with an entry of a constant table), in Rating itself or in a package
+		// function the score is handed to
 		consts := map[string]*big.Rat{}
 		okUses := true
-		var stack []ast.Node
-		ast.Inspect(fd.Body, func(n ast.Node) bool {
-			if n == nil {
-				stack = stack[:len(stack)-1]
-				return false
-			}
-			stack = append(stack, n)
-			id, ok := n.(*ast.Ident)
-			if !ok || p.Info.Uses[id] != score {
-				return true
-			}
-			// find parent skipping parens
-			i := len(stack) - 2
-			for i >= 0 {
-				if _, isP := stack[i].(*ast.ParenExpr); isP {
-					i--
-					continue
+		var scan func(fd *ast.FuncDecl, score types.Object, depth int)
+		scan = func(fd *ast.FuncDecl, score types.Object, depth int) {
+			var stack []ast.Node
+			ast.Inspect(fd.Body, func(n ast.Node) bool {
+				if n == nil {
+					stack = stack[:len(stack)-1]
+					return false
 				}
-				break
-			}
-			be, isB := stack[i].(*ast.BinaryExpr)
-			if i < 0 || !isB {
-				okUses = false
-				add(false, "R15.region", "Rating.use", id, "the score is used other than in a comparison with a constant: the region argument does not apply (undecided)")
-				return true
-			}
-			switch be.Op {
-			case token.LSS, token.LEQ, token.GTR, token.GEQ, token.EQL, token.NEQ:
-			default:
-				okUses = false
-				add(false, "R15.region", "Rating.use", id, "the score is used in arithmetic: undecided")
-				return true
-			}
-			other := be.Y
-			if ast.Node(be.Y) == stack[i+1] {
-				other = be.X
-			}
-			tv := p.Info.Types[other]
-			v, ok := constVal(tv)
-			if !ok || (v.K != VRat && v.K != VInt) {
-				// a threshold read from a package-level table of constants
-				// (directly or through a range variable over it): every
-				// numeric leaf of that table is a candidate threshold
-				if leaves, ok := tableOperandLeaves(p, fd, other); ok {
-					for _, l := range leaves {
-						r := f64(l)
-						consts[r.RatString()] = r
-					}
+				stack = append(stack, n)
+				id, ok := n.(*ast.Ident)
+				if !ok || p.Info.Uses[id] != score {
 					return true
 				}
-				okUses = false
-				add(false, "R15.region", "Rating.use", id, "the score is compared with a value that is neither a constant nor an entry of a constant table: undecided")
+				// find parent skipping parens
+				i := len(stack) - 2
+				for i >= 0 {
+					if _, isP := stack[i].(*ast.ParenExpr); isP {
+						i--
+						continue
+					}
+					break
+				}
+				if i >= 0 {
+					if call, isC := stack[i].(*ast.CallExpr); isC && depth < 4 {
+						if fn := calleeOf(p.Info, call); fn != nil && fn.Pkg() == p.P.Types {
+							if g := p.FuncObj[fn]; g != nil && g.Body != nil {
+								gp := paramObjs(p.Info, g)
+								for ai, a := range call.Args {
+									if a == stack[i+1] && ai < len(gp) && gp[ai] != nil {
+										if assignedIn(p.Info, g.Body, gp[ai]) {
+											okUses = false
+											add(false, "R15.region", "Rating.use", g, "the score is reassigned in "+g.Name.Name+": undecided")
+										}
+										scan(g, gp[ai], depth+1)
+										return true
+									}
+								}
+							}
+						}
+					}
+				}
+				be, isB := stack[i].(*ast.BinaryExpr)
+				if i < 0 || !isB {
+					okUses = false
+					add(false, "R15.region", "Rating.use", id, "the score is used other than in a comparison with a constant: the region argument does not apply (undecided)")
+					return true
+				}
+				switch be.Op {
+				case token.LSS, token.LEQ, token.GTR, token.GEQ, token.EQL, token.NEQ:
+				default:
+					okUses = false
+					add(false, "R15.region", "Rating.use", id, "the score is used in arithmetic: undecided")
+					return true
+				}
+				other := be.Y
+				if ast.Node(be.Y) == stack[i+1] {
+					other = be.X
+				}
+				tv := p.Info.Types[other]
+				v, ok := constVal(tv)
+				if !ok || (v.K != VRat && v.K != VInt) {
+					if leaves, ok := tableOperandLeaves(p, fd, other); ok {
+						for _, l := range leaves {
+							r := f64(l)
+							consts[r.RatString()] = r
+						}
+						return true
+					}
+					okUses = false
+					add(false, "R15.region", "Rating.use", id, "the score is compared with a value that is neither a constant nor an entry of a constant table: undecided")
+					return true
+				}
+				r := f64(toRat(v))
+				consts[r.RatString()] = r
 				return true
-			}
-			r := f64(toRat(v))
-			consts[r.RatString()] = r
-			return true
-		})
+			})
+		}
+		scan(fd, score, 0)
 		if assignedIn(p.Info, fd.Body, score) {
 			okUses = false
 			add(false, "R15.region", "Rating.use", fd, "the score parameter is reassigned: undecided")
